@@ -16,6 +16,8 @@
 //!                               (side=server: peers openssl / rodbus) resp. the ClientHello of the client under test
 //!                               is held back (side=client); meanwhile set_decode_level is called on the ServerHandle
 //!                               resp. the Channel under test; then the handshake goes on. Same output as without.
+//!   stuck=silent|partial|plain  (side=server) before the peer another connection is made and kept open: it sends nothing /
+//!                               9 bytes of a ClientHello / Modbus in clear. Same output as without.
 //!   pmode=ca|ss ptrust=<pem> pcert=<pem> pkey=<pem> [pchain=<pem>]   material of the peer (pchain: intermediates
 //!                               an openssl peer sends along; a rodbus peer gets them inside pcert)
 //! output line:  <OK|REFUSED>:<negotiated version as reported by openssl or ->:<roles seen by the
@@ -573,6 +575,28 @@ fn cell(rt: &tokio::runtime::Runtime, line: &str, openssl: &str, ip: Ipv4Addr) -
             Err(e) => return e,
         };
         let mut sut = sut;
+        // stuck=silent|partial|plain: BEFORE the peer, another connection is accepted by the server and kept open for the
+        // whole cell: it sends nothing / the first 9 bytes of a ClientHello / a Modbus request in clear. It must not
+        // keep the peer behind it from being admitted.
+        let _stuck: Option<std::net::TcpStream> = match get("stuck").as_str() {
+            "" => None,
+            kind => match std::net::TcpStream::connect(sut.addr) {
+                Ok(mut s) => {
+                    match kind {
+                        "partial" => {
+                            let _ = s.write_all(&[0x16, 0x03, 0x01, 0x02, 0x00, 0x01, 0x00, 0x01, 0xFC]);
+                        }
+                        "plain" => {
+                            let _ = s.write_all(&REQUEST);
+                        }
+                        _ => {}
+                    }
+                    std::thread::sleep(Duration::from_millis(60));
+                    Some(s)
+                }
+                Err(_) => return "NOSTUCK".to_string(),
+            },
+        };
         let mut version = "-".to_string();
         let ok;
         // gate=level: the peer reaches the server through a relay that holds its ClientHello back; meanwhile the
